@@ -280,6 +280,11 @@ func (w *aprWorld) connect(p int) {
 			{Description: &model.NetworkManagementFeatureDescriptionDataType{FeatureAddress: h.FA(dev, []uint{0}, 0), FeatureType: &nt, Role: &nr}},
 			{Description: &model.NetworkManagementFeatureDescriptionDataType{FeatureAddress: h.FA(dev, []uint{1}, 1), FeatureType: &ft, Role: &role}}},
 	}
+	// entities 2..5 never write; the harness announces them as removed while writes of entity 1 are pending
+	for e := uint(2); e <= 5; e++ {
+		dd.EntityInformation = append(dd.EntityInformation, model.NodeManagementDetailedDiscoveryEntityInformationType{Description: &model.NetworkManagementEntityDescriptionDataType{EntityAddress: &model.EntityAddressType{Entity: spine.NewAddressEntityType([]uint{e})}, EntityType: util.Ptr(model.EntityTypeTypeEVSE)}})
+		dd.FeatureInformation = append(dd.FeatureInformation, model.NodeManagementDetailedDiscoveryFeatureInformationType{Description: &model.NetworkManagementFeatureDescriptionDataType{FeatureAddress: h.FA(dev, []uint{e}, 1), FeatureType: &ft, Role: &role}})
+	}
 	cl := model.CmdClassifierTypeReply
 	w.inject(p, model.DatagramType{Header: model.HeaderType{AddressSource: h.FA(dev, []uint{0}, 0), AddressDestination: h.FA("HEMS", []uint{0}, 0), MsgCounter: util.Ptr(model.MsgCounterType(1)), MsgCounterReference: util.Ptr(model.MsgCounterType(1)), CmdClassifier: &cl}, Payload: model.PayloadType{Cmd: []model.CmdType{{NodeManagementDetailedDiscoveryData: dd}}}})
 	cc := model.CmdClassifierTypeCall
@@ -1707,6 +1712,194 @@ func aprCorpus() [][]string {
 	}
 }
 
+// ---------- clean-ups concurrent with verdicts (judged by the SPEC only)
+
+// aprRemovedNotify: the peer announces its entity e as removed (partial notify of the detailed discovery data)
+func aprRemovedNotify(p int, e uint, ctr int) model.DatagramType {
+	dev := aprDev(p)
+	fn := model.FunctionTypeNodeManagementDetailedDiscoveryData
+	nc := model.CmdClassifierTypeNotify
+	rem := model.NetworkManagementStateChangeTypeRemoved
+	dd := &model.NodeManagementDetailedDiscoveryDataType{
+		DeviceInformation: &model.NodeManagementDetailedDiscoveryDeviceInformationType{Description: &model.NetworkManagementDeviceDescriptionDataType{DeviceAddress: &model.DeviceAddressType{Device: util.Ptr(model.AddressDeviceType(dev))}}},
+		EntityInformation: []model.NodeManagementDetailedDiscoveryEntityInformationType{
+			{Description: &model.NetworkManagementEntityDescriptionDataType{EntityAddress: &model.EntityAddressType{Entity: spine.NewAddressEntityType([]uint{e})}, LastStateChange: &rem}}},
+	}
+	return model.DatagramType{Header: model.HeaderType{AddressSource: h.FA(dev, []uint{0}, 0), AddressDestination: h.FA("HEMS", []uint{0}, 0), MsgCounter: util.Ptr(model.MsgCounterType(ctr)), CmdClassifier: &nc},
+		Payload: model.PayloadType{Cmd: []model.CmdType{{Function: &fn, Filter: []model.FilterType{{CmdControl: &model.CmdControlType{Partial: &model.ElementTagType{}}}}, NodeManagementDetailedDiscoveryData: dd}}}}
+}
+
+// aprAwait: the task has ended, or it has not although the process has been running for `bound` (kept time)
+func aprAwait(t *h.Task, bound time.Duration) bool {
+	t0 := time.Now()
+	for {
+		if _, done, ok := t.Wait(20 * time.Millisecond); ok && done {
+			return true
+		}
+		if time.Since(t0) > bound && h.Kept(t0) > bound/2 {
+			return t.IsDone()
+		}
+	}
+}
+
+func aprSpin(d time.Duration) {
+	for t0 := time.Now(); time.Since(t0) < d; {
+	}
+}
+
+// aprConcurrentCleanups: "every write gets exactly one outcome, regardless of the order in which approvals, denials
+// and the timeout interleave" - and whatever else the stack does for the peer meanwhile. Per round: several writes
+// pending, the verdict goroutines of two or three callbacks parked past the pending lookup; they are released
+// together with a clean-up running on another goroutine: the peer announces an entity as removed (another one than
+// the writer's: the writes stay; or the writer's: they go) or its connection is removed. Every call into the stack
+// must return (bounded in kept time); with the writer's entity still there, every write then gets exactly one
+// outcome - applied if all callbacks approved, the denial's error otherwise - and a fresh write afterwards is still
+// served. A feature that no longer answers is reported as C12/write-without-outcome:blocked.
+func aprConcurrentCleanups(r *h.Report, rounds int) {
+	const key = "C12/write-without-outcome:blocked"
+	const bound = 4 * time.Second
+	rng := h.Rng(1277)
+	w := newAprWorld(3, 1)
+	defer w.close()
+	w.f[0].SetWriteApprovalTimeout(3 * time.Second) // the timers stay out of it: every write is resolved by verdicts
+	if !w.bound(0) {
+		r.Info["concurrent_cleanups"] = "world: binding not established"
+		return
+	}
+	call := func(f func()) bool { return aprAwait(h.Go(f), bound) }
+	var ops []string
+	fail := func(k, detail string) {
+		r.SpecFail(k, append([]string{}, ops...), detail)
+	}
+	hit := map[string]int{}
+	ctr := 20
+	for round := 0; round < rounds; round++ {
+		mode := []string{"other-entity", "other-entity", "writers-entity", "disconnect"}[round%4]
+		ops = []string{"cfg 3 1", fmt.Sprintf("concurrent-cleanup %s round %d", mode, round)}
+		res := &aprResult{shapes: map[string]int{}}
+		x := &aprRun{w: w, res: res, looks: map[int]*aprLook{}}
+		nW := 3 + rng.Intn(4)
+		var wrs []*aprWrite
+		for i := 0; i < nW; i++ {
+			ctr++
+			c := ctr
+			if !call(func() { x.exec(fmt.Sprintf("write 0 %d %d pid", c, i%2)) }) {
+				fail(key, fmt.Sprintf("round %d (%s): the write datagram %d was not taken within %v: the feature no longer answers", round, mode, c, bound))
+				return
+			}
+			w.mu.Lock()
+			wr := w.conn[0].writes[uint64(c)]
+			w.mu.Unlock()
+			if wr == nil || len(wr.msgs) < w.nCb {
+				fail("C12/not-presented-to-every-callback", fmt.Sprintf("round %d: write %d was not presented to all callbacks", round, c))
+				return
+			}
+			wrs = append(wrs, wr)
+		}
+		// verdict goroutines: callbacks 0 and 1 approve every write, parked past the pending lookup
+		var tasks []*h.Task
+		for _, wr := range wrs {
+			for cb := 0; cb < 2; cb++ {
+				m := wr.msgs[cb]
+				t := h.Go(func() { w.f[0].ApproveOrDenyWrite(m, aprErr(true)) }, aprSite)
+				if site, done, ok := t.Wait(3 * time.Second); !ok || done || site != aprSite {
+					r.Info["concurrent_cleanups"] = "a verdict goroutine did not reach the yield point"
+					for _, t := range tasks {
+						t.Finish(time.Second)
+					}
+					return
+				}
+				tasks = append(tasks, t)
+			}
+		}
+		// the clean-up on its own goroutine, the verdicts released around it
+		lead := time.Duration(rng.Intn(250)) * time.Microsecond
+		var clean *h.Task
+		switch mode {
+		case "other-entity":
+			ctr++
+			dg := aprRemovedNotify(0, uint(2+(round/4)%4), ctr)
+			clean = h.Go(func() { w.inject(0, dg) })
+		case "writers-entity":
+			ctr++
+			dg := aprRemovedNotify(0, 1, ctr)
+			clean = h.Go(func() { w.inject(0, dg) })
+		default:
+			clean = h.Go(func() { w.drop(0) })
+		}
+		aprSpin(lead)
+		for _, t := range tasks {
+			t.Release()
+		}
+		stuck := 0
+		for _, t := range tasks {
+			if !aprAwait(t, bound) {
+				stuck++
+			}
+		}
+		cleanDone := aprAwait(clean, bound)
+		if stuck > 0 || !cleanDone {
+			fail(key, fmt.Sprintf("round %d: %d writes were pending with two approvals each being committed (ApproveOrDenyWrite, %d goroutines) while the stack processed '%s' for the peer: %d verdict calls and the clean-up (returned: %v) have not returned after %v - the feature is blocked: none of its writes can get an outcome any more, not even by timeout", round, nW, len(tasks), mode, stuck, cleanDone, bound))
+			return
+		}
+		hit[mode]++
+		switch mode {
+		case "other-entity":
+			// the writes are still there: the third callback decides, one write after the other
+			for i, wr := range wrs {
+				approve := i%2 == 0
+				m := wr.msgs[2]
+				if !call(func() { w.f[0].ApproveOrDenyWrite(m, aprErr(approve)) }) {
+					fail(key, fmt.Sprintf("round %d: the third verdict for write %d did not return within %v", round, wr.c, bound))
+					return
+				}
+				w.scan()
+				w.mu.Lock()
+				var kinds []string
+				for _, o := range wr.outcomes {
+					kinds = append(kinds, o.kind)
+				}
+				w.mu.Unlock()
+				want := map[bool]string{true: "applied", false: "derr"}[approve]
+				if got := strings.Join(kinds, "+"); got != want {
+					k := "C12/two-outcomes"
+					if got == "" {
+						k = "C12/no-outcome"
+					}
+					fail(k, fmt.Sprintf("round %d: write %d of the peer (3 callbacks: two approvals committed while the peer's entity %d was announced as removed, then callback 2 %s): expected %s, observed [%s]", round, wr.c, 2+(round/4)%4, map[bool]string{true: "approved", false: "denied"}[approve], want, got))
+					return
+				}
+			}
+		default:
+			// the writes went with their entity / connection: none may have two outcomes
+			w.scan()
+			w.mu.Lock()
+			for _, wr := range wrs {
+				if len(wr.outcomes) > 1 {
+					w.mu.Unlock()
+					fail("C12/two-outcomes", fmt.Sprintf("round %d (%s): write %d has %d outcomes", round, mode, wr.c, len(wr.outcomes)))
+					return
+				}
+			}
+			w.mu.Unlock()
+		}
+		// a fresh connection for the next round (the entity list, the binding and the counters start over)
+		if mode != "disconnect" {
+			if !call(func() { w.drop(0) }) {
+				fail(key, fmt.Sprintf("round %d (%s): RemoveRemoteDeviceConnection did not return within %v", round, mode, bound))
+				return
+			}
+		}
+		if !call(func() { w.connect(0) }) || !w.bound(0) {
+			fail(key, fmt.Sprintf("round %d (%s): the peer could not connect and bind again within %v", round, mode, bound))
+			return
+		}
+		ctr = 20
+		r.Eval("concurrent-cleanup:"+mode, "")
+	}
+	r.Info["concurrent_cleanups"] = fmt.Sprintf("%d rounds (verdict goroutines released together with an entity removal / a disconnect): %v", rounds, hit)
+}
+
 // ---------- the test
 
 func TestApproval(t *testing.T) {
@@ -1790,6 +1983,13 @@ func TestApproval(t *testing.T) {
 	}
 
 	if ops := h.ReplayOps("approval"); ops != nil {
+		for _, op := range ops {
+			if strings.HasPrefix(op, "concurrent-cleanup") {
+				// the failing input is a race: the replay is the phase itself
+				aprConcurrentCleanups(r, h.Scale(160, 600))
+				return
+			}
+		}
 		flags := aprProbe(r)
 		d := h.StartDriver("drv_appr", flags...)
 		defer d.Close()
@@ -1865,6 +2065,8 @@ func TestApproval(t *testing.T) {
 		}(lists[wk])
 	}
 	wg.Wait()
+
+	aprConcurrentCleanups(r, h.Scale(160, 600))
 
 	r.Info["abandoned_histories_by_reason"] = abandoned
 	r.Info["timing_dependent_disagreements_not_reproduced"] = flakes
